@@ -30,25 +30,25 @@ const prelude = `(set-option :produce-models true)
 `
 
 type Obligation struct {
-	Name    string   // stable key: func/kind:detail
-	Func    string   // function under verification
-	Kind    string   // bounds|nil|conv|div|assert|overflow|requires|ensures|invariant|decreases|atcall|frame|lemma|cover|canary
-	Props   []string // property ids served
-	Desc    string   // human text (clause source, or the indexed expression)
-	Pos     token.Position
-	prefix  int
-	Cond    Term
-	Goal    Term
-	Inputs  []ModelVar
-	Cover   bool // cover obligations are expected SAT (reachability); canaries expected to fail
+	Name     string   // stable key: func/kind:detail
+	Func     string   // function under verification
+	Kind     string   // bounds|nil|conv|div|assert|overflow|requires|ensures|invariant|decreases|atcall|frame|lemma|cover|canary
+	Props    []string // property ids served
+	Desc     string   // human text (clause source, or the indexed expression)
+	Pos      token.Position
+	prefix   int
+	Cond     Term
+	Goal     Term
+	Inputs   []ModelVar
+	Cover    bool // cover obligations are expected SAT (reachability); canaries expected to fail
 	Implicit bool
 
 	// results
-	Res     SolveResult
-	File    string
-	Status  string // discharged | failed | unknown | cover-ok | cover-fail
-	Replay  *ReplayResult
-	Known   string // known finding id if matched
+	Res    SolveResult
+	File   string
+	Status string // discharged | failed | unknown | cover-ok | cover-fail
+	Replay *ReplayResult
+	Known  string // known finding id if matched
 }
 
 type ModelVar struct {
@@ -269,8 +269,8 @@ const (
 	KInt
 	KFloat
 	KString
-	KRef   // pointer to struct
-	KAddr  // pointer to non-struct
+	KRef  // pointer to struct
+	KAddr // pointer to non-struct
 	KIface
 	KSlice
 	KArray
